@@ -55,6 +55,14 @@ Lemma repairs_in_place :
   /\ bytes_text_decoded_first = true /\ hier_counts_array_items = false.
 Proof. repeat split; reflexivity. Qed.
 
+(** the repairs of the malformed-input side (not needed by the fidelity theorems; the model
+    follows them, and an edit of one of them shows here) *)
+Lemma malformed_input_repairs_in_place :
+  scalar_for_repeated_refused = true /\ binary_source_checked = true /\ number_source_checked = true
+  /\ null_body_absent_args = true /\ bare_body_under_message_name = true
+  /\ mp_envelope_errors_are_decode_errors = true /\ rpc_nil_params_absent_args = true.
+Proof. repeat split; reflexivity. Qed.
+
 (** the leaf handler every protocol instance dispatches to is the one the model
     (Wire.Dict.leaf_enc / leaf_conv) transcribes *)
 Definition expected_handlers : list (gproto * bool * gkind * hname) :=
